@@ -59,10 +59,10 @@ PROPS = {
                 rule="histories of <=40 candidate updates (convex / non-convex gradients), maxcor 1..10, n 1..12, and update sequences intercepted in real runs; non-trivial = >=2 accepted and >=1 rejected",
                 explanation="memory-discipline theorems on the memory model for every history; BFGS step SPD+secant over Q; compact=dense explored against a dense recursion",
                 assumptions=COMMON_ASSUME),
-    "C11": dict(monitor=K, level="proof", corr=["driver:budget", "driver"],
+    "C11": dict(monitor=K, level="proof", corr=["driver:budget", "driver", "dcsrch"],
                 rule="direct line_search calls on convex/oscillating objectives, caps 1..20, iteration 0/1/5; non-trivial = >=2 trial points",
-                explanation="theorem C11_linesearch over the line-search model for every DCSRCH behaviour; bit-exact correspondence through the driver runs",
-                assumptions=COMMON_ASSUME + ["range contract of SciPy's DCSRCH (0 <= stp <= stpmax) is a named hypothesis, checked on every recorded call"]),
+                explanation="theorems over the line-search model: box / budget / strictly-downhill for every line-search routine; range clause with the bit-exact model of SciPy's DCSRCH inside (every pow behaviour); bit-exact correspondence through the driver runs (DCSRCH model running inside the driver model) and of the DCSRCH model alone on random and adversarial histories",
+                assumptions=COMMON_ASSUME + ["SciPy's _dcsrch.py is modelled by hand (Model/Dcsrch.v) and tied by correspondence, not by a translator; the C library's pow(x, 2.0) is an oracle of that model"]),
     "C12": dict(monitor=D3, level="other", corr=["driver"],
                 rule="unconstrained qp4/qpsp/rosen problems vs scipy L-BFGS-B (first 12 iterations, until a documented deviation or round-off) and final values on convex box problems; non-trivial = >=5 evaluation points compared",
                 explanation="the reference is a compiled binary without a model: Coq pins the constants, first-step rule and theta formula regenerated from the source; agreement with the binary is exploration",
